@@ -35,7 +35,7 @@ fn main() {
     for d in &defs {
         // the odd capacity is the interesting one for alignment
         for ci in [1usize, 0] {
-            let mut g = (d.instantiate[ci])();
+            let mut g = (d.instantiate[ci].expect("capacity"))();
             let meta = g.meta().clone();
             for fam in [Family::Life, Family::Writes, Family::Clone, Family::Serde] {
                 let all = enumerate(&meta, fam);
